@@ -416,6 +416,48 @@ fn h4(out: &mut Vec<ModuleSpec>, _thorough: bool) {
         out,
         false,
     );
+    // a name given up and taken again in the same step, by a datum of another type / of the same type
+    for s in STRATEGIES {
+        fragments(
+            ModuleSpec::new(
+                format!("h4/name_reuse_type_change/{}", s.name()),
+                vec![
+                    add("label", Str),
+                    addu("n", U32),
+                    add("keep", VecU32),
+                    close(s),
+                    rm("label"),
+                    add("label", BoxStr),
+                    rm("n"),
+                    addu("n", U64),
+                    close(s),
+                ],
+            ),
+            out,
+            false,
+        );
+        fragments(
+            ModuleSpec::new(
+                format!("h4/name_reuse_same_type/{}", s.name()),
+                vec![
+                    add("label", Str),
+                    addu("n", U32),
+                    close(s),
+                    rm("label"),
+                    add("label", Str),
+                    rm("n"),
+                    addu("n", U32),
+                    add("extra", Noisy),
+                    close(s),
+                    rm("label"),
+                    add("label", Noisy),
+                    close(s),
+                ],
+            ),
+            out,
+            false,
+        );
+    }
     // the repository's README definition
     fragments(
         ModuleSpec::new(
@@ -475,6 +517,55 @@ fn h4(out: &mut Vec<ModuleSpec>, _thorough: bool) {
     }
 }
 
+/// H5: zero-size data around holes: a zero-size datum at every list position of a
+/// [u32, u32, u64] base, one sized datum removed, the hole refilled, then one more close
+/// (order mistakes of a close surface as overlaps or rendering panics in the next one).
+fn h5(out: &mut Vec<ModuleSpec>, thorough: bool) {
+    let zsts = [Unit, ZstA8, ZstDrop];
+    let mut k = 0usize;
+    for zpos in 0..4usize {
+        for removed in 0..3usize {
+            for (i1, s1) in [Append, Simple, AppendReverse].iter().enumerate() {
+                for (i2, s2) in STRATEGIES.iter().enumerate() {
+                    for (i3, s3) in [Simple, Basic].iter().enumerate() {
+                        k += 1;
+                        if !thorough && (zpos * 5 + removed * 3 + i1 * 7 + i2 * 2 + i3) % 11 != 0 {
+                            continue;
+                        }
+                        let z = zsts[k % 3];
+                        let sized = [U32, U32, U64];
+                        let mut h = Vec::new();
+                        let mut si = 0;
+                        for pos in 0..4 {
+                            if pos == zpos {
+                                h.push(if z.is_copy() { addu("z", z) } else { add("z", z) });
+                            } else {
+                                h.push(addu(&format!("s{}", si), sized[si]));
+                                si += 1;
+                            }
+                        }
+                        h.push(close(*s1));
+                        h.push(rm(&format!("s{}", removed)));
+                        h.push(addu("d", if k % 2 == 0 { U32 } else { U16 }));
+                        h.push(close(*s2));
+                        h.push(addu("e", U16));
+                        h.push(add("f", Str));
+                        h.push(close(*s3));
+                        fragments(
+                            ModuleSpec::new(
+                                format!("h5/z{}@{}/rm{}/{}-{}-{}", z.name(), zpos, removed, s1.name(), s2.name(), s3.name()),
+                                h,
+                            ),
+                            out,
+                            false,
+                        );
+                    }
+                }
+            }
+        }
+    }
+}
+
 /// Seeded random histories: ≤ 6 variants, ≤ 8 live fields.
 fn random(out: &mut Vec<ModuleSpec>, n: usize, seed: u64) {
     let pool: Vec<Ty> = PLAIN.iter().chain(OWNING).chain(USER).copied().collect();
@@ -486,12 +577,15 @@ fn random(out: &mut Vec<ModuleSpec>, n: usize, seed: u64) {
         let mut next = 0usize;
         for v in 0..variants {
             let mut pending: Vec<String> = Vec::new();
+            let mut freed: Vec<String> = Vec::new();
             // removals of closed data
             if v > 0 {
                 let mut i = 0;
                 while i < live.len() {
                     if rng.chance(2, 5) {
-                        h.push(rm(&live.remove(i)));
+                        let n = live.remove(i);
+                        h.push(rm(&n));
+                        freed.push(n);
                     } else {
                         i += 1;
                     }
@@ -503,8 +597,13 @@ fn random(out: &mut Vec<ModuleSpec>, n: usize, seed: u64) {
                     break;
                 }
                 let t = rng.pick(&pool);
-                let n = format!("r{}", next);
-                next += 1;
+                // sometimes take a name that was just given up
+                let n = if !freed.is_empty() && rng.chance(1, 4) {
+                    freed.pop().unwrap()
+                } else {
+                    next += 1;
+                    format!("r{}", next - 1)
+                };
                 h.push(if t.is_copy() && rng.chance(1, 2) { addu(&n, t) } else { add(&n, t) });
                 pending.push(n);
                 // occasionally withdraw a pending datum (sentinel offset)
@@ -526,6 +625,7 @@ pub fn specs(thorough: bool, seed: u64) -> Vec<ModuleSpec> {
     h2(&mut out, thorough);
     h3(&mut out, thorough);
     h4(&mut out, thorough);
+    h5(&mut out, thorough);
     // the quick tier's random extension is pinned; the thorough one follows VERIF_SEED
     random(&mut out, if thorough { 60 } else { 16 }, 1);
     if thorough {
